@@ -343,12 +343,8 @@ theorem propElt_render : ∀ (p : PProp) (env : Env) (s : Term BN) (li : Nat) (s
           simp only [renderProp, propElt]
           rw [info_stdAttrs _ (wfPAttrs_isProp rs _ pattrs hpa) rfl rfl]
           simp only [hn1, if_false, hn2, hn3, hoid]
-          have hcond : (dt.isNone && (List.map PAttr.render pattrs).isEmpty) = false := by
-            rcases hne with hne | hne
-            · cases dt <;> simp_all
-            · cases pattrs <;> simp_all
           subst hnn
-          simp [textOnly, flatProp, emptyObj, hcond, h.1, ← h.2, wfPAttrs_triples rs _ _ pattrs hpa]
+          simp [textOnly, flatProp, emptyObj, h.1, ← h.2, wfPAttrs_triples rs _ _ pattrs hpa]
           intro hd hp
           subst hd hp
           simp at hne
@@ -430,7 +426,7 @@ theorem propElt_render : ∀ (p : PProp) (env : Env) (s : Term BN) (li : Nat) (s
     simp only [wfProp] at h
     split at h
     · rename_i hc
-      simp only [Bool.and_eq_true, decide_eq_true_eq, ne_eq, decide_not, Bool.not_eq_true',
+      simp only [Bool.and_eq_true, ne_eq, decide_not, Bool.not_eq_true',
         decide_eq_false_iff_not] at hc
       obtain ⟨⟨hn, hp1⟩, hp2⟩ := hc
       obtain ⟨hn1, hn2, hn3⟩ := wfName_facts li nm hn
